@@ -136,6 +136,9 @@ def build(case):
             blocks.append((L, {"marker": mk, "frag": frag, "explicit": sp in ("text", "project_text"), "tmark": f"lt{n}", "line_rel": line_rel, "truth_line": truth_line, "pos": pos, "spelling": sp}))
         elif k == "filler":
             blocks.append(([f"filler {n} text"], None))
+        elif k == "footnote_named":
+            # a footnote whose label is the same word as an explicit target / a heading slug: the '#name' links keep their target
+            blocks.append(([f"see the note[^{it['label']}] here", "", f"[^{it['label']}]: a footnote that shares its label with a target"], None))
     # assemble with line numbers
     lines = []
     for L, info in blocks:
@@ -365,6 +368,11 @@ def make_case(R):
         items.insert(R.randint(0, len(items)), it)
     for _ in range(R.randint(0, 2)):
         items.insert(R.randint(0, len(items)), {"k": "filler"})
+    simple = [nm for nm in names if re.fullmatch(r"[A-Za-z0-9_-]+", nm)]
+    if simple and R.random() < 0.3:
+        # placed AFTER the targets (the other order is a duplicate-name situation of its own)
+        last_t = max(i for i, it in enumerate(items) if it["k"] == "target")
+        items.insert(R.randint(last_t + 1, len(items)), {"k": "footnote_named", "label": R.choice(simple)})
     return {"kind": "doc", "items": items, "anchors": R.choice([0, 1, 2, 3, 3, 3])}
 
 
